@@ -80,7 +80,9 @@ def gen_programs(rng, thorough):
             call("ArrayGetItem", [a, (str(i), i, True)])
         for x in (1, "a", "b", [1], 7, None, 2.0):
             call("ArrayContains", [a, (render_arg(x) if not isinstance(x, list) else "States.Array(1)", x, True)])
-    for s, e, i in [(1, 9, 2), (5, 1, -2), (0, 0, 1), (3, 1, 1), (1, 3, -1), (1, 1000, 1), (1, 1001, 1), (0, 5, 0), (-3, 3, 3), (10, -10, -7), (1, 10, 20), (0, 999, 1)]:
+    for s, e, i in [(1, 9, 2), (5, 1, -2), (0, 0, 1), (3, 1, 1), (1, 3, -1), (1, 1000, 1), (1, 1001, 1), (0, 5, 0), (-3, 3, 3), (10, -10, -7), (1, 10, 20), (0, 999, 1),
+                    # ranges that run away from their end are empty, however far apart the two ends are
+                    (1000, 0, 1), (0, -5000, 1), (5000, 0, 60), (0, 2000, -1), (-1500, 0, -3), (1001, 1, 1), (1, 1002, -1)]:
         call("ArrayRange", [(str(s), s, True), (str(e), e, True), (str(i), i, True)])
     for a, b in [(1, 2), (-5, 5), (10 ** 12, 1), (0, 0), (9007199254740993, 1), (-9007199254740993, 2), (2 ** 62, 5)]:       # (integer literals beyond 2^53 stay exact)
         call("MathAdd", [(str(a), a, True), (str(b), b, True)])
@@ -172,6 +174,18 @@ def main():
     programs = gen_programs(random.Random(ck.seed), thorough)
     results = run_all(programs)
 
+    # States.UUID() gives a fresh identifier whatever else was evaluated before it (a seeded States.MathRandom re-seeds a generator: not UUID's)
+    from asl_workflow_engine import state_engine_paths as sp_
+    uu = []
+    for _ in range(5):
+        try:
+            out = sp_.evaluate_payload_template({"a": 1}, {}, {"r.$": "States.MathRandom(1, 100, 7)", "u.$": "States.UUID()"})
+            uu.append(out.get("u"))
+        except Exception as e:      # noqa
+            uu.append("%s: %s" % (type(e).__name__, e))
+    if len(set(uu)) != len(uu) or not all(isinstance(u, str) and len(u) == 36 for u in uu):
+        ck.violation("States.UUID() evaluated after a seeded States.MathRandom gave the same identifier again (or none): %r" % (uu,),
+                     {"group": "uuid", "template": {"r.$": "States.MathRandom(1, 100, 7)", "u.$": "States.UUID()"}, "results_of_5_evaluations": uu})
     # results must not depend on the hash seed of the process
     env = dict(os.environ, PYTHONHASHSEED="12345", PYTHONPATH=PYSRC)
     other = subprocess.run(["/venv/bin/python", os.path.abspath(__file__), "--digest", str(ck.seed), ck.tier], env=env, stdout=subprocess.PIPE, text=True, timeout=600)
